@@ -23,6 +23,7 @@ import json
 import os
 import random
 import signal
+import unicodedata
 
 from vf.core.obs import Obs, cpu_guard, CpuBudget, exc_sig
 from vf.core import anchors
@@ -37,7 +38,8 @@ RULE = ("libraries of 1-8 Template pages: EXHAUSTIVE for <=3 pages (every adjace
         "flag sets one/end/two/none/all/random; redirects to page/self/absent/chains, redirect pages that the classifier "
         "also classifies; used names canonical or spelled lower-initial / Template: / template: / T: / underscore and "
         "combinations; non-resolving decoy names; titles with blanks, unicode, stored lower-case initial + upper-case "
-        "twin, quotes, %, inner colon; 15% re-add + re-analyse rounds in the same context; 30% GROWING stores: one library "
+        "twin, quotes, %, inner colon, and titles NOT in Unicode NFC (base+combining mark, OHM/ANGSTROM SIGN, Hangul jamo, "
+        "combining-order) stored verbatim and used with the same code points -- also the third title of the exhaustive part; 15% re-add + re-analyse rounds in the same context; 30% GROWING stores: one library "
         "dealt out over 2-4 rounds, each round adds new templates -- new includers of already marked and of unmarked "
         "templates, new flagged templates, new redirects, names that resolve only once a later round added the page -- and "
         "analyses the long-lived store again; 30% of the cases store some pages with need_pre_expand=True up front). "
@@ -78,6 +80,8 @@ def floors(tier):
         "counters.model.redirect-target-marked": 500, "counters.model.readings-differ": 100,
         "counters.edge.noncanonical": 2000, "counters.rounds.later": 500, "counters.n.8": 100,
         "counters.flagged-redirect-page": 200,
+        "counters.graph.title-not-in-NFC": 5000, "counters.edge.into-or-out-of-title-not-in-NFC": 10000,
+        "counters.model.propagation-involves-title-not-in-NFC": 2000,
         "counters.history.grow-round": 3000, "counters.history.store-with-premarked-page": 1500,
         "counters.history.flagged-template-already-marked": 2000,
         "counters.history.new-derivation-only-through-already-marked-flagged": 600,
@@ -215,6 +219,29 @@ def drop_redirects(case):
     return with_rounds(case, [{"pages": [dict(p, r=None) for p in r["pages"]]} for r in case["rounds"]])
 
 
+def nfc_case(case):
+    """The same history with every title / redirect target / used name in Unicode NFC; None if two titles collide."""
+    nf = lambda x: None if x is None else unicodedata.normalize("NFC", x)
+    for r in case["rounds"]:
+        ts = [p["t"] for p in r["pages"]]
+        if len({nf(t) for t in ts}) != len(set(ts)):
+            return None
+    allt = {p["t"] for r in case["rounds"] for p in r["pages"]}
+    if len({nf(t) for t in allt}) != len(allt):
+        return None
+    rounds = []
+    for r in case["rounds"]:
+        pages = []
+        for p in r["pages"]:
+            u = []
+            for w in p["u"]:
+                if nf(w) not in u:
+                    u.append(nf(w))
+            pages.append(dict(p, t=nf(p["t"]), r=nf(p["r"]), u=u))
+        rounds.append({"pages": pages})
+    return with_rounds(case, rounds)
+
+
 def collapse(case):
     """The store of the last round, filled and analysed once."""
     return {"rounds": [M.graph_at(case, len(case["rounds"]) - 1)]}
@@ -259,6 +286,16 @@ def diagnose(case, probs):
                     f = find(o, rule)
                     if f is None:
                         tag = "used-name-not-canonical-title"
+                    else:
+                        wit, (cat, detail) = c, f
+        if tag is None:
+            c = nfc_case(wit)
+            if c is not None and c != wit:
+                o = outcome(c)
+                if not broken(o):
+                    f = find(o, rule)
+                    if f is None:
+                        tag = "template-title-not-in-unicode-NFC"
                     else:
                         wit, (cat, detail) = c, f
         out.append(("%s/%s" % (rule, tag or cat), detail, wit))
@@ -363,6 +400,13 @@ class Shard:
             obs.count("graph.with-redirect-pages")
             if any(m["redirect"].get(t) in m["redirect"] for t in m["redirect"]):
                 obs.count("graph.redirect-chain-or-loop")
+        nonnfc = {t for t in m["titles"] if unicodedata.normalize("NFC", t) != t}
+        if nonnfc:
+            obs.count("graph.title-not-in-NFC")
+            e = sum(1 for t, s in m["inc"].items() for y in s if t in nonnfc or y in nonnfc)
+            obs.count("edge.into-or-out-of-title-not-in-NFC", e)
+            if (m["m0"] - m["flagged"]) & nonnfc or any(m["inc"][t] & nonnfc for t in m["m0"] - m["flagged"]):
+                obs.count("model.propagation-involves-title-not-in-NFC")
         if any(p["r"] is not None and p["f"] for p in graph["pages"]):
             obs.count("flagged-redirect-page")
         if any(p["r"] is not None and p["u"] for p in graph["pages"]):
